@@ -54,6 +54,9 @@ impl Property for C02 {
     fn id(&self) -> &'static str {
         "C02"
     }
+    fn hang_is_violation(&self) -> bool {
+        true
+    }
     fn rule(&self) -> String {
         format!("C01's input space plus: an unterminated string/code block/comment/#ifdef/#else inserted at every token boundary of GRAM programs, 12 nesting shapes (brackets and chained let/if/foreach) at depth 1..250, one token repeated 10^4 times. Oracle: no panic/abort, hook step count <= {WORK_FACTOR}*(tokens+1)+{WORK_CONST}, every error has a message and an in-text char-boundary range. Inputs with scan depth > 256 are skipped (counted). distinct = digest of text; non-trivial = >=1 syntax error, or depth >= 32, or >= 200 tokens")
     }
